@@ -95,7 +95,12 @@ func (r *Result) Sample(s interface{}) {
 }
 
 // Violate records a (P) failure, writing the replay file.
-func (r *Result) Violate(desc string, replay interface{}) {
+func (r *Result) Violate(desc string, replay interface{}) { r.ViolateKnown(desc, replay, "") }
+
+// ViolateKnown records a (P) failure attributed to the known finding with the given id (see
+// /verif/known_findings.txt); the check driver prints KNOWN-FINDING for it instead of VIOLATION when the
+// id is listed there.
+func (r *Result) ViolateKnown(desc string, replay interface{}, known string) {
 	r.mu.Lock()
 	defer r.mu.Unlock()
 	if len(r.Violations) >= 20 {
@@ -104,7 +109,7 @@ func (r *Result) Violate(desc string, replay interface{}) {
 	name := fmt.Sprintf("replay_%s_%d.json", r.Property, len(r.Violations))
 	b, _ := json.MarshalIndent(map[string]interface{}{"property": r.Property, "desc": desc, "case": replay}, "", " ")
 	os.WriteFile(filepath.Join(r.out, name), b, 0o644)
-	r.Violations = append(r.Violations, Violation{Desc: desc, Replay: name})
+	r.Violations = append(r.Violations, Violation{Desc: desc, Replay: name, Known: known})
 }
 
 func (r *Result) NViolations() int {
